@@ -30,7 +30,7 @@ var scanTokens = []string{
 	"Body", "Request", "200", "Path", "Headers", "Query", "TYPE", "ENUM", "MACRO", "PASTE", "INCLUDE", "Protocol", "Method",
 	"Params", "Result", "TAG", "Tags",
 	" ", "\n", "\r", "\t", "(", ")", "#", "###", "//", "/*", "*/", "/", "*", "\"", "\\", "@a", "a", "0.3", "/p",
-	"{}", "[1]", "[@a]", "any", "empty", "regex", "jsight", "/x/", "{", "[", "\x00", "\xff", "é", "\"a b\"", "5", "B", "{\"a\":1}",
+	"{}", "[1]", "[@a]", "any", "empty", "regex", "jsight", "/x/", "{", "[", "\x00", "\xff", "é", "\"a b\"", "5", "B", "{\"a\":1}", "\"regex\"",
 }
 
 // enumTokenSeqs calls f on every sequence of at most n tokens.
@@ -121,7 +121,7 @@ func runC14(ctx *Ctx) {
 	}
 	// a systematic family around bodies: keyword, parameters, line end, body, what follows the body
 	for _, kw := range scanTokens[:30] {
-		for _, par := range []string{"", " @a", " /p", " any", " regex", " 0.3", " \"a b\""} {
+		for _, par := range []string{"", " @a", " /p", " any", " regex", " 0.3", " \"a b\"", " \"regex\"", " \"any\"", " regex x", " \"reg\\\\ex\""} {
 			for _, body := range []string{"{}", "[1]", "/x/", "text", "@a", "{\"a\":1}"} {
 				for _, suf := range []string{"", " ", "\t", " # c", " //", "\n", "\r", "\r\n", " \n"} {
 					for _, next := range []string{"", "GET /a", ")"} {
